@@ -28,6 +28,7 @@ fn main() {
     let out = out.expect("--out");
     let mut w = std::io::BufWriter::new(std::fs::File::create(&out).unwrap());
     let mut ws = std::io::BufWriter::new(std::fs::File::create(format!("{}.sync", out)).unwrap());
+    let mut wi = std::io::BufWriter::new(std::fs::File::create(format!("{}.iso", out)).unwrap());
     let mut dumpw = dump.map(|d| std::io::BufWriter::new(std::fs::File::create(d).unwrap()));
     let mut n = 0usize;
     for (pi, p) in progs.iter().enumerate() {
@@ -36,6 +37,19 @@ fn main() {
         let (evs, sync) = arena::run_multi(pi, p);
         for e in &evs { serde_json::to_writer(&mut w, e).unwrap(); w.write_all(b"\n").unwrap(); n += 1; }
         for e in &sync { serde_json::to_writer(&mut ws, e).unwrap(); ws.write_all(b"\n").unwrap(); }
+        // isolation log: every event of every arena paired with the same event of its solo run
+        let solo = arena::run_solo(pi, p);
+        for (a, sevs) in solo.iter().enumerate() {
+            let mine: Vec<&vh::arena::Event> = evs.iter().filter(|e| e.ar == a).collect();
+            let n = mine.len().max(sevs.len());
+            for k in 0..n {
+                let x = mine.get(k).map(|e| arena::iso_of(e, false)).unwrap_or_else(|| arena::IsoEvent { p: pi, ar: a, i: k, op: "<missing>".into(), ..Default::default() });
+                let y = sevs.get(k).map(|e| arena::iso_of(e, true)).unwrap_or_else(|| arena::IsoEvent { p: pi, ar: a, i: k, solo: 1, op: "<missing>".into(), ..Default::default() });
+                serde_json::to_writer(&mut wi, &x).unwrap(); wi.write_all(b"\n").unwrap();
+                serde_json::to_writer(&mut wi, &y).unwrap(); wi.write_all(b"\n").unwrap();
+            }
+        }
+        wi.flush().unwrap();
         w.flush().unwrap();
         ws.flush().unwrap();
     }
